@@ -1,7 +1,865 @@
-//! C41 — not implemented yet.
-use vmon::report::Args;
+//! C41 — replay spill and stream chunking deliver every batch exactly once.
+//!
+//! Spill leg: the real `lance_datafusion::spill::{create_replay_spill, SpillSender, SpillReceiver}`.
+//! A scenario is a batch sequence (unique `id` per row, 0-row and sliced batches included), a memory
+//! limit (0 = always spill … huge = never), and a set of readers, each opened at a chosen point
+//! (before write k, after finish; the same receiver or a clone, any number of times) and run as
+//! concurrent tasks with injected yields / sleeps. Oracle, per reader: exactly the written batches, in
+//! order, batch boundaries and row values equal (`vmon::table::batch_to_rows`). Variants:
+//! `send_error` (every reader: exact prefix, then the error — never a clean end), sender dropped
+//! before readers finish (documented: readers may fail; required only "exact prefix then end or
+//! error", never wrong / duplicated / reordered batches).
+//!
+//! Chunker leg: `chunk_stream`, `chunk_concat_stream`, `StrictBatchSizeStream`, `break_stream` over a
+//! random batch stream (with pending polls injected): every output has exactly the requested number
+//! of rows except the last, and the row-level concatenation equals the input (for `break_stream`:
+//! its documented contract — no output crosses a multiple of the break point, nothing combined).
 
-pub fn run(_args: &Args) -> i32 {
-    eprintln!("HARNESS-ERROR C41 not implemented");
-    2
+use arrow_array::RecordBatch;
+use arrow_schema::SchemaRef;
+use datafusion::error::DataFusionError;
+use datafusion::execution::SendableRecordBatchStream;
+use datafusion::physical_plan::stream::RecordBatchStreamAdapter;
+use futures::{StreamExt, TryStreamExt};
+use lance_datafusion::chunker::{break_stream, chunk_concat_stream, chunk_stream, StrictBatchSizeStream};
+use lance_datafusion::spill::create_replay_spill;
+use serde_json::{json, Value};
+use std::time::Duration;
+use vmon::prng::{fnv, Rng};
+use vmon::report::{Args, Report};
+use vmon::table::{batch_to_rows, render_row, ColTy, IdAlloc, Row, TableSpec};
+
+const RULE: &str = "Spill cases: seeded batch sequence (0-row / sliced batches, nested and string columns) x memory \
+limit (0, at a batch boundary +-1, huge) x readers opened before write k / during / after finish (same receiver or \
+clone, re-opened) running concurrently with injected yields; variants finish / send_error / early sender drop. \
+Non-trivial iff >=1 reader was opened before the last write and (data was spilled to disk or >=2 readers ran); \
+distinct by (batch count, spill point, reader start points, variant, runtime flavour). Chunker cases: seeded batch \
+sizes x chunk size x chunker; non-trivial iff some input batch was split or several were combined; distinct by \
+(chunker, sizes, chunk size).";
+
+fn pool() -> Vec<ColTy> {
+    vec![
+        ColTy::I32,
+        ColTy::I64,
+        ColTy::F64,
+        ColTy::Bool,
+        ColTy::Utf8,
+        ColTy::LargeUtf8,
+        ColTy::Binary,
+        ColTy::TsMicro,
+        ColTy::Dec128(12, 2),
+        ColTy::FslF32(3),
+        ColTy::ListI32,
+        ColTy::StructIS,
+    ]
+}
+
+fn gen_batches(rng: &mut Rng, spec: &TableSpec, ids: &mut IdAlloc, n: usize, max_rows: usize) -> Vec<RecordBatch> {
+    (0..n)
+        .map(|_| {
+            let rows = match rng.below(8) {
+                0 => 0,
+                1 => 1,
+                _ => rng.urange(1, max_rows),
+            };
+            if rng.chance(1, 4) && rows > 0 {
+                // a slice of a larger batch: non-zero offsets in every buffer
+                let pre = rng.urange(1, 5);
+                let post = rng.urange(0, 3);
+                let b = spec.batch(rng, &ids.take(pre + rows + post));
+                // ids of the padding rows are simply never seen again
+                b.slice(pre, rows)
+            } else {
+                spec.batch(rng, &ids.take(rows))
+            }
+        })
+        .collect()
+}
+
+fn rows_of(bs: &[RecordBatch]) -> Vec<Vec<Row>> {
+    bs.iter().map(batch_to_rows).collect()
+}
+
+// -------------------------------------------------------------------------------------------
+// spill leg
+// -------------------------------------------------------------------------------------------
+
+#[derive(Clone, Copy, Debug, PartialEq, Eq)]
+enum Variant {
+    Finish,
+    /// `send_error` after this many writes
+    SendError(usize),
+    /// sender dropped right after this many writes (None = after finish) without waiting for readers
+    EarlyDrop(Option<usize>),
+}
+
+#[derive(Clone, Debug)]
+struct ReaderPlan {
+    /// opened before write `k` (k == n: after the last write, before finish; k == n+1: after finish)
+    open_at: usize,
+    use_clone: bool,
+    /// delay pattern between `next()` calls
+    delay_seed: u64,
+    /// read only this many batches, then stop (reader dropped early); None = to the end
+    stop_after: Option<usize>,
+}
+
+#[derive(Debug)]
+enum ReadEnd {
+    Eof,
+    Err(String),
+    Stopped,
+    Timeout,
+}
+
+async fn run_reader(mut s: SendableRecordBatchStream, plan: ReaderPlan) -> (Vec<RecordBatch>, ReadEnd) {
+    let mut out = vec![];
+    let mut x = plan.delay_seed | 1;
+    loop {
+        if let Some(k) = plan.stop_after {
+            if out.len() >= k {
+                return (out, ReadEnd::Stopped);
+            }
+        }
+        x ^= x << 13;
+        x ^= x >> 7;
+        x ^= x << 17;
+        match x % 6 {
+            0 | 1 => {}
+            2 | 3 => tokio::task::yield_now().await,
+            4 => tokio::time::sleep(Duration::from_micros(x >> 8 & 0xff)).await,
+            _ => {
+                for _ in 0..3 {
+                    tokio::task::yield_now().await;
+                }
+            }
+        }
+        match tokio::time::timeout(Duration::from_secs(30), s.next()).await {
+            Err(_) => return (out, ReadEnd::Timeout),
+            Ok(None) => return (out, ReadEnd::Eof),
+            Ok(Some(Ok(b))) => out.push(b),
+            Ok(Some(Err(e))) => return (out, ReadEnd::Err(e.to_string())),
+        }
+    }
+}
+
+/// compare what a reader saw with the written batches. `must_be_complete`: the reader has to see all
+/// batches and a clean end. Returns (signature, detail).
+fn judge_reader(
+    written: &[Vec<Row>],
+    got: &[RecordBatch],
+    end: &ReadEnd,
+    expect: Expect,
+) -> Option<(String, String)> {
+    let got_rows = rows_of(got);
+    // prefix check, batch by batch
+    for (i, g) in got_rows.iter().enumerate() {
+        if i >= written.len() {
+            return Some((
+                "reader-delivered-more-batches-than-written".into(),
+                format!("batch #{i} delivered, only {} written", written.len()),
+            ));
+        }
+        if *g != written[i] {
+            // classify: duplicate of an earlier batch / a later batch (skipped) / other
+            let class = if i > 0 && *g == written[i - 1] && !g.is_empty() {
+                "duplicated-batch"
+            } else if written[i + 1..].iter().any(|w| w == g) && !g.is_empty() {
+                "skipped-batch"
+            } else if g.len() != written[i].len() {
+                "batch-boundary-differs"
+            } else {
+                "batch-values-differ"
+            };
+            let a = g.first().map(render_row).unwrap_or_default();
+            let b = written[i].first().map(render_row).unwrap_or_default();
+            return Some((
+                format!("reader-{class}"),
+                format!(
+                    "batch #{i}: got {} rows (first {a}), written {} rows (first {b})",
+                    g.len(),
+                    written[i].len()
+                ),
+            ));
+        }
+    }
+    match (expect, end) {
+        (_, ReadEnd::Timeout) => None, // judged as inconclusive by the caller
+        (_, ReadEnd::Stopped) => None,
+        (Expect::AllThenEof, ReadEnd::Eof) => {
+            if got.len() != written.len() {
+                Some((
+                    "reader-ended-early".into(),
+                    format!("clean end after {} of {} batches", got.len(), written.len()),
+                ))
+            } else {
+                None
+            }
+        }
+        (Expect::AllThenEof, ReadEnd::Err(e)) => Some((
+            "reader-error-with-live-sender".into(),
+            format!("error after {} of {} batches: {e}", got.len(), written.len()),
+        )),
+        (Expect::PrefixThenError(marker), ReadEnd::Err(e)) => {
+            if e.contains(marker) {
+                None
+            } else {
+                Some(("reader-got-different-error".into(), format!("expected marker {marker}, got: {e}")))
+            }
+        }
+        (Expect::PrefixThenError(_), ReadEnd::Eof) => Some((
+            "reader-clean-end-after-send-error".into(),
+            format!("send_error was not delivered: clean end after {} batches", got.len()),
+        )),
+        (Expect::PrefixAny, _) => None,
+    }
+}
+
+#[derive(Clone, Copy, Debug)]
+enum Expect {
+    AllThenEof,
+    PrefixThenError(&'static str),
+    PrefixAny,
+}
+
+const ERR_MARK: &str = "e_io-injected-spill-error-7741";
+
+struct SpillCase {
+    spec: TableSpec,
+    batches: Vec<RecordBatch>,
+    limit: usize,
+    limit_class: &'static str,
+    readers: Vec<ReaderPlan>,
+    variant: Variant,
+}
+
+fn gen_spill_case(rng: &mut Rng, idx: u64) -> SpillCase {
+    let ncols = rng.urange(0, 3);
+    let spec = TableSpec::random(rng, &pool(), ncols);
+    let mut ids = IdAlloc::new((idx % 1000) as usize);
+    let n = match rng.below(10) {
+        0 => 0,
+        1 => 1,
+        _ => rng.urange(2, 10),
+    };
+    let batches = gen_batches(rng, &spec, &mut ids, n, 40);
+    let sizes: Vec<usize> = batches.iter().map(|b| b.get_array_memory_size()).collect();
+    let (limit, limit_class) = match rng.below(6) {
+        0 | 1 => (0usize, "zero"),
+        2 | 3 if n > 0 => {
+            let k = rng.urange(1, n);
+            let s: usize = sizes[..k].iter().sum();
+            match rng.below(3) {
+                0 => (s.saturating_sub(1), "boundary-1"),
+                1 => (s, "boundary"),
+                _ => (s + 1, "boundary+1"),
+            }
+        }
+        4 => (rng.urange(1, 4096), "small"),
+        _ => (usize::MAX / 2, "huge"),
+    };
+    let nr = rng.urange(1, 5);
+    let readers = (0..nr)
+        .map(|_| ReaderPlan {
+            open_at: match rng.below(5) {
+                0 => 0,
+                1 => n + 1,
+                2 => n,
+                _ => rng.urange(0, n + 1),
+            },
+            use_clone: rng.bool(),
+            delay_seed: rng.next_u64(),
+            stop_after: if rng.chance(1, 10) { Some(rng.urange(0, n.max(1))) } else { None },
+        })
+        .collect();
+    let variant = match rng.below(10) {
+        0 | 1 => Variant::SendError(rng.urange(0, n)),
+        2 | 3 => Variant::EarlyDrop(if rng.bool() { None } else { Some(rng.urange(0, n)) }),
+        _ => Variant::Finish,
+    };
+    SpillCase {
+        spec,
+        batches,
+        limit,
+        limit_class,
+        readers,
+        variant,
+    }
+}
+
+struct SpillObs {
+    readers: Vec<(ReaderPlan, Vec<RecordBatch>, ReadEnd)>,
+    written: usize,
+    spilled_at: Option<usize>,
+    write_error: Option<String>,
+}
+
+async fn run_spill_case(c: &SpillCase, dir: &std::path::Path, idx: u64) -> SpillObs {
+    let path = dir.join(format!("spill-{idx}.arrow"));
+    let _ = std::fs::remove_file(&path);
+    let schema: SchemaRef = c.spec.schema();
+    let (mut sender, receiver) = create_replay_spill(path.clone(), schema, c.limit);
+    let n = c.batches.len();
+    let mut handles = vec![];
+    let mut spilled_at = None;
+    let mut written = 0;
+    let mut write_error = None;
+    let mut opened = vec![false; c.readers.len()];
+    // open every not yet opened reader planned for a point <= `upto`
+    let open = |upto: usize,
+                opened: &mut Vec<bool>,
+                handles: &mut Vec<(ReaderPlan, tokio::task::JoinHandle<(Vec<RecordBatch>, ReadEnd)>)>| {
+        for (i, r) in c.readers.iter().enumerate() {
+            if !opened[i] && r.open_at <= upto {
+                opened[i] = true;
+                let stream = if r.use_clone { receiver.clone().read() } else { receiver.read() };
+                handles.push((r.clone(), tokio::spawn(run_reader(stream, r.clone()))));
+            }
+        }
+    };
+    let sender_opt;
+    let mut ended = false;
+    for k in 0..n {
+        open(k, &mut opened, &mut handles);
+        match c.variant {
+            Variant::SendError(e) if e == k => {
+                sender.send_error(DataFusionError::Execution(ERR_MARK.to_string()));
+                ended = true;
+                break;
+            }
+            Variant::EarlyDrop(Some(d)) if d == k => {
+                ended = true;
+                break;
+            }
+            _ => {}
+        }
+        if let Err(e) = sender.write(c.batches[k].clone()).await {
+            write_error = Some(e.to_string());
+            ended = true;
+            break;
+        }
+        written += 1;
+        if spilled_at.is_none() && path.exists() {
+            spilled_at = Some(k);
+        }
+        if k % 2 == 1 {
+            tokio::task::yield_now().await;
+        }
+    }
+    if !ended {
+        open(n, &mut opened, &mut handles);
+        match c.variant {
+            Variant::SendError(_) => sender.send_error(DataFusionError::Execution(ERR_MARK.to_string())),
+            Variant::EarlyDrop(Some(_)) => {}
+            _ => {
+                if let Err(e) = sender.finish().await {
+                    write_error = Some(format!("finish: {e}"));
+                }
+            }
+        }
+    }
+    // readers planned for later points are opened now (after finish / error / right before the drop)
+    open(usize::MAX, &mut opened, &mut handles);
+    match c.variant {
+        Variant::EarlyDrop(_) => {
+            // do not wait for the readers
+            drop(sender);
+            sender_opt = None;
+        }
+        _ => sender_opt = Some(sender),
+    }
+    let mut readers = vec![];
+    for (p, h) in handles {
+        match h.await {
+            Ok((got, end)) => readers.push((p, got, end)),
+            Err(e) => readers.push((p, vec![], ReadEnd::Err(format!("reader task panicked: {e}")))),
+        }
+    }
+    drop(sender_opt);
+    let _ = std::fs::remove_file(&path);
+    SpillObs {
+        readers,
+        written,
+        spilled_at,
+        write_error,
+    }
+}
+
+fn spill_case(report: &Report, seed: u64, idx: u64, rt: &tokio::runtime::Runtime, flavour: &str, dir: &std::path::Path, selftest: bool) {
+    let mut rng = Rng::for_case(seed, idx);
+    let c = gen_spill_case(&mut rng, idx);
+    let mut obs = rt.block_on(run_spill_case(&c, dir, idx));
+    let n = c.batches.len();
+    if let Some(e) = &obs.write_error {
+        // the IPC writer rejected the data (e.g. a type it cannot serialise): rejected input
+        report.rejected();
+        report.count("spill.write_rejected", 1);
+        if report.counter("spill.write_rejected") <= 3 {
+            report.set("spill.write_rejected_example", json!({"schema": c.spec.describe(), "error": e}));
+        }
+        report.case(None);
+        return;
+    }
+    let written_rows = rows_of(&c.batches[..obs.written]);
+    if selftest {
+        // damage one reader's observation: duplicate / drop / swap a batch
+        if let Some((_, got, _)) = obs.readers.iter_mut().find(|(p, g, _)| g.len() >= 2 && p.stop_after.is_none()) {
+            match idx % 3 {
+                0 => {
+                    let b = got[0].clone();
+                    got.insert(1, b);
+                }
+                1 => {
+                    got.remove(0);
+                }
+                _ => got.swap(0, 1),
+            }
+            report.count("selftest_corrupted", 1);
+            let flagged = obs
+                .readers
+                .iter()
+                .any(|(_, g, e)| judge_reader(&written_rows, g, e, Expect::PrefixAny).is_some());
+            // swap of two equal (e.g. both empty) batches is not a corruption
+            let distinct = written_rows.len() >= 2 && written_rows[0] != written_rows[1];
+            if flagged {
+                report.count("selftest_flagged", 1);
+            } else if distinct || idx % 3 != 2 {
+                if idx % 3 == 1 && written_rows.len() >= 2 && written_rows[0] == written_rows[1] {
+                    // dropping one of two equal leading batches only shortens the prefix
+                } else {
+                    report.count("selftest_missed", 1);
+                }
+            }
+        }
+        return;
+    }
+    let expect = match c.variant {
+        Variant::Finish => Expect::AllThenEof,
+        Variant::SendError(_) => Expect::PrefixThenError(ERR_MARK),
+        Variant::EarlyDrop(_) => Expect::PrefixAny,
+    };
+    let mut early_readers = 0;
+    for (p, got, end) in &obs.readers {
+        let when = if p.open_at == 0 {
+            "before_first_write"
+        } else if p.open_at <= n.saturating_sub(1) {
+            "during_writes"
+        } else if p.open_at == n {
+            "after_last_write_before_finish"
+        } else {
+            "after_finish"
+        };
+        if p.open_at < n {
+            early_readers += 1;
+        }
+        report.count(&format!("spill.reader_start.{when}"), 1);
+        report.count("spill.readers", 1);
+        report.count("spill.batches_compared", got.len() as u64);
+        report.count("rows_compared", got.iter().map(|b| b.num_rows() as u64).sum());
+        match end {
+            ReadEnd::Timeout => {
+                report.count("spill.reader_timeouts", 1);
+                report.inconclusive(&format!("spill case {idx}: a reader did not finish within 30 s (wall clock)"));
+            }
+            ReadEnd::Err(_) => report.count("spill.reader_ended_with_error", 1),
+            ReadEnd::Eof => report.count("spill.reader_ended_cleanly", 1),
+            ReadEnd::Stopped => report.count("spill.reader_stopped_early_by_plan", 1),
+        }
+        if let Some((sig, detail)) = judge_reader(&written_rows, got, end, expect) {
+            let sig = match c.variant {
+                Variant::EarlyDrop(_) => format!("{sig}-after-sender-drop"),
+                Variant::SendError(_) => format!("{sig}-with-send-error"),
+                Variant::Finish => sig,
+            };
+            report.violation(
+                &sig,
+                &detail,
+                json!({"seed": seed as i64, "case": idx, "leg": "spill", "runtime": flavour, "schema": c.spec.describe(),
+                    "batch_rows": c.batches.iter().map(|b| b.num_rows()).collect::<Vec<_>>(),
+                    "memory_limit": c.limit, "memory_limit_class": c.limit_class, "spilled_at_write": obs.spilled_at,
+                    "variant": format!("{:?}", c.variant), "batches_written": obs.written,
+                    "reader": {"open_before_write": p.open_at, "clone": p.use_clone, "stop_after": p.stop_after},
+                    "reader_saw_batches": got.iter().map(|b| b.num_rows()).collect::<Vec<_>>(), "reader_end": format!("{end:?}"),
+                    "all_readers": c.readers.iter().map(|r| r.open_at).collect::<Vec<_>>()}),
+            );
+        }
+    }
+    let spilled = obs.spilled_at.is_some();
+    report.count(if spilled { "spill.cases_spilled_to_disk" } else { "spill.cases_in_memory" }, 1);
+    report.count(&format!("spill.limit.{}", c.limit_class), 1);
+    report.count(
+        &format!(
+            "spill.variant.{}",
+            match c.variant {
+                Variant::Finish => "finish",
+                Variant::SendError(_) => "send_error",
+                Variant::EarlyDrop(_) => "early_drop",
+            }
+        ),
+        1,
+    );
+    if let Some(k) = obs.spilled_at {
+        report.count(if k == 0 { "spill.transition_at_first_write" } else { "spill.transition_after_buffering" }, 1);
+    }
+    let nontrivial = early_readers >= 1 && (spilled || obs.readers.len() >= 2);
+    let mut starts: Vec<usize> = c.readers.iter().map(|r| r.open_at).collect();
+    starts.sort();
+    let sig = fnv(format!("spill|{n}|{:?}|{starts:?}|{:?}|{flavour}", obs.spilled_at, c.variant).as_bytes());
+    report.case(if nontrivial { Some(sig) } else { None });
+    if report.want_sample() && nontrivial && spilled && idx % 7 == 0 {
+        report.sample(json!({"leg": "spill", "case": idx, "schema": c.spec.describe(),
+            "batch_rows": c.batches.iter().map(|b| b.num_rows()).collect::<Vec<_>>(), "memory_limit": c.limit,
+            "spilled_at_write": obs.spilled_at, "variant": format!("{:?}", c.variant),
+            "readers_open_before_write": starts, "outcome": "every reader: exact batches in order"}));
+    }
+}
+
+// -------------------------------------------------------------------------------------------
+// chunker leg
+// -------------------------------------------------------------------------------------------
+
+fn make_stream(schema: SchemaRef, batches: Vec<RecordBatch>, pend_seed: u64, fail_at: Option<usize>) -> SendableRecordBatchStream {
+    let items: Vec<Result<RecordBatch, DataFusionError>> = batches
+        .into_iter()
+        .enumerate()
+        .flat_map(|(i, b)| {
+            if fail_at == Some(i) {
+                vec![Err(DataFusionError::Execution(ERR_MARK.to_string()))]
+            } else {
+                vec![Ok(b)]
+            }
+        })
+        .collect();
+    let mut x = pend_seed | 1;
+    let s = futures::stream::iter(items).then(move |it| {
+        x ^= x << 13;
+        x ^= x >> 7;
+        x ^= x << 17;
+        let yields = if pend_seed == 0 { 0 } else { x % 3 };
+        async move {
+            for _ in 0..yields {
+                tokio::task::yield_now().await;
+            }
+            it
+        }
+    });
+    Box::pin(RecordBatchStreamAdapter::new(schema, s.boxed()))
+}
+
+fn flat(rows: &[Vec<Row>]) -> Vec<Row> {
+    rows.iter().flatten().cloned().collect()
+}
+
+/// sizes: every chunk == size except the last (1..=size); returns signature suffix on failure
+fn judge_sizes(sizes: &[usize], size: usize) -> Option<String> {
+    for (i, s) in sizes.iter().enumerate() {
+        let last = i + 1 == sizes.len();
+        if *s == 0 {
+            return Some("empty-chunk".into());
+        }
+        if *s > size {
+            return Some("oversized-chunk".into());
+        }
+        if *s < size && !last {
+            return Some("short-non-final-chunk".into());
+        }
+    }
+    None
+}
+
+fn judge_concat(input: &[Row], out: &[Row]) -> Option<(String, String)> {
+    if input == out {
+        return None;
+    }
+    let class = if out.len() < input.len() && input[..out.len()] == *out {
+        "rows-lost-at-end"
+    } else if out.len() < input.len() {
+        "rows-lost"
+    } else if out.len() > input.len() {
+        "rows-duplicated-or-extra"
+    } else {
+        "rows-differ-or-reordered"
+    };
+    let k = input.iter().zip(out.iter()).position(|(a, b)| a != b).unwrap_or(input.len().min(out.len()));
+    Some((
+        class.to_string(),
+        format!(
+            "input {} rows, output {} rows, first difference at row {k}: in={} out={}",
+            input.len(),
+            out.len(),
+            input.get(k).map(render_row).unwrap_or_default(),
+            out.get(k).map(render_row).unwrap_or_default()
+        ),
+    ))
+}
+
+fn chunk_case(report: &Report, seed: u64, idx: u64, rt: &tokio::runtime::Runtime, selftest: bool) {
+    let mut rng = Rng::for_case(seed, idx);
+    let ncols = rng.urange(0, 2);
+    let spec = TableSpec::random(&mut rng, &pool(), ncols);
+    let mut ids = IdAlloc::new((idx % 1000) as usize);
+    let n = match rng.below(10) {
+        0 => 0,
+        1 => 1,
+        _ => rng.urange(2, 9),
+    };
+    let batches = gen_batches(&mut rng, &spec, &mut ids, n, 30);
+    let in_sizes: Vec<usize> = batches.iter().map(|b| b.num_rows()).collect();
+    let total: usize = in_sizes.iter().sum();
+    let size = match rng.below(6) {
+        0 => 1,
+        1 => total.max(1),
+        2 => total + 1 + rng.urange(0, 3),
+        3 if total > 0 => *rng.pick(&in_sizes).max(&1),
+        _ => rng.urange(1, total.max(2)),
+    };
+    let which = rng.below(4);
+    let name = ["chunk_stream", "chunk_concat_stream", "StrictBatchSizeStream", "break_stream"][which as usize];
+    let pend_seed = if rng.chance(1, 3) { 0 } else { rng.next_u64() };
+    let fail_at = if rng.chance(1, 12) && n > 0 { Some(rng.usize_below(n)) } else { None };
+    let schema = spec.schema();
+    let input_rows = flat(&rows_of(&batches));
+    let stream = make_stream(schema.clone(), batches.clone(), pend_seed, fail_at);
+    // outputs as (rows per output item, rows) + per-item piece sizes
+    type Out = (Vec<Vec<Row>>, Vec<Vec<usize>>, Option<String>);
+    let out: Result<Out, String> = rt.block_on(async {
+        let fut = async {
+            let mut items: Vec<Vec<Row>> = vec![];
+            let mut pieces: Vec<Vec<usize>> = vec![];
+            let mut err = None;
+            match which {
+                0 => {
+                    let mut s = chunk_stream(stream, size);
+                    while let Some(x) = s.next().await {
+                        match x {
+                            Ok(v) => {
+                                pieces.push(v.iter().map(|b| b.num_rows()).collect());
+                                items.push(v.iter().flat_map(batch_to_rows).collect());
+                            }
+                            Err(e) => {
+                                err = Some(e.to_string());
+                                break;
+                            }
+                        }
+                    }
+                }
+                1 | 2 => {
+                    let mut s: SendableRecordBatchStream = if which == 1 {
+                        chunk_concat_stream(stream, size)
+                    } else {
+                        Box::pin(RecordBatchStreamAdapter::new(schema.clone(), StrictBatchSizeStream::new(stream, size)))
+                    };
+                    while let Some(x) = s.next().await {
+                        match x {
+                            Ok(b) => {
+                                pieces.push(vec![b.num_rows()]);
+                                items.push(batch_to_rows(&b));
+                            }
+                            Err(e) => {
+                                err = Some(e.to_string());
+                                break;
+                            }
+                        }
+                    }
+                }
+                _ => {
+                    let mut s = break_stream(stream, size);
+                    while let Some(x) = s.next().await {
+                        match x {
+                            Ok(b) => {
+                                pieces.push(vec![b.num_rows()]);
+                                items.push(batch_to_rows(&b));
+                            }
+                            Err(e) => {
+                                err = Some(e.to_string());
+                                break;
+                            }
+                        }
+                    }
+                }
+            }
+            (items, pieces, err)
+        };
+        match tokio::time::timeout(Duration::from_secs(20), fut).await {
+            Ok(x) => Ok(x),
+            Err(_) => Err("timeout".to_string()),
+        }
+    });
+    let (mut items, pieces, err) = match out {
+        Ok(x) => x,
+        Err(_) => {
+            report.inconclusive(&format!("chunk case {idx}: {name} did not finish in 20 s"));
+            report.case(None);
+            return;
+        }
+    };
+    if selftest {
+        if items.len() >= 2 && fail_at.is_none() && which != 3 {
+            // merge two chunks / drop a row
+            report.count("selftest_corrupted", 1);
+            if idx % 2 == 0 {
+                let b = items.remove(1);
+                items[0].extend(b);
+            } else {
+                items[0].pop();
+            }
+            let sizes: Vec<usize> = items.iter().map(|i| i.len()).collect();
+            let flagged = judge_sizes(&sizes, size).is_some() || judge_concat(&input_rows, &flat(&items)).is_some();
+            report.count(if flagged { "selftest_flagged" } else { "selftest_missed" }, 1);
+        }
+        return;
+    }
+    let sizes: Vec<usize> = items.iter().map(|i| i.len()).collect();
+    let out_rows = flat(&items);
+    report.count(&format!("chunk.cases.{name}"), 1);
+    report.count("rows_compared", out_rows.len() as u64);
+    let wit = |detail: &str| {
+        json!({"seed": seed as i64, "case": idx, "leg": "chunker", "chunker": name, "schema": spec.describe(),
+            "input_batch_rows": in_sizes, "requested_size": size, "output_rows": sizes, "output_pieces": pieces,
+            "input_stream_fails_at_batch": fail_at, "error": err, "detail": detail})
+    };
+    if let Some(f) = fail_at {
+        // error in the input: outputs so far must be an exact prefix, the error must surface
+        report.count("chunk.input_error_cases", 1);
+        match &err {
+            None => {
+                report.violation(&format!("{name}-swallowed-input-error"), "input stream error was not delivered", wit(""));
+            }
+            Some(e) if !e.contains(ERR_MARK) => {
+                report.violation(&format!("{name}-different-error"), e, wit(""));
+            }
+            _ => {}
+        }
+        let before: usize = in_sizes[..f].iter().sum();
+        if out_rows.len() > before || input_rows[..out_rows.len()] != out_rows[..] {
+            report.violation(
+                &format!("{name}-output-before-error-not-a-prefix"),
+                "rows delivered before the input error are not a prefix of the rows before the failing batch",
+                wit(""),
+            );
+        }
+        report.case(None);
+        return;
+    }
+    if let Some(e) = &err {
+        report.violation(&format!("{name}-unexpected-error"), e, wit(""));
+        report.case(None);
+        return;
+    }
+    if let Some((class, detail)) = judge_concat(&input_rows, &out_rows) {
+        report.violation(&format!("{name}-{class}"), &detail, wit(&detail));
+    }
+    if which < 3 {
+        if let Some(class) = judge_sizes(&sizes, size) {
+            report.violation(&format!("{name}-{class}"), "chunk sizes are not `size, size, …, last<=size`", wit(""));
+        }
+    } else {
+        // break_stream: no output crosses a multiple of `size`; nothing combined (each output inside
+        // one input batch); no empty outputs
+        let mut pos = 0usize;
+        let mut bounds = vec![];
+        let mut acc = 0;
+        for s in &in_sizes {
+            acc += s;
+            bounds.push(acc);
+        }
+        for s in &sizes {
+            let (a, b) = (pos, pos + s);
+            if *s == 0 {
+                report.violation("break_stream-empty-chunk", "empty output batch", wit(""));
+                break;
+            }
+            if a / size != (b - 1) / size {
+                report.violation("break_stream-output-crosses-break-point", &format!("output rows {a}..{b} cross a multiple of {size}"), wit(""));
+                break;
+            }
+            if bounds.iter().any(|x| a < *x && *x < b) {
+                report.violation("break_stream-combined-input-batches", &format!("output rows {a}..{b} span two input batches"), wit(""));
+                break;
+            }
+            pos = b;
+        }
+    }
+    let split_or_combined = pieces.iter().any(|p| p.len() > 1) || sizes != in_sizes.iter().copied().filter(|s| *s > 0).collect::<Vec<_>>();
+    let sig = fnv(format!("chunk|{name}|{in_sizes:?}|{size}").as_bytes());
+    report.case(if split_or_combined { Some(sig) } else { None });
+    if report.want_sample() && split_or_combined && idx % 11 == 0 {
+        report.sample(json!({"leg": "chunker", "chunker": name, "input_batch_rows": in_sizes, "requested_size": size, "output_rows": sizes}));
+    }
+}
+
+pub fn run(args: &Args) -> i32 {
+    let selftest = args.extra.contains_key("selftest");
+    let report = Report::new(args, "exploration", RULE, (45, 600)).with_min_nontrivial(100);
+    report.assume("sender kept alive until all readers finished, except in the early-drop variant where only prefix-exactness is required");
+    report.assume("a reader that does not finish within 30 s of wall clock is inconclusive, not a violation");
+    std::panic::set_hook(Box::new(|_| {}));
+    let dir = match tempfile::Builder::new().prefix("e_io-c41-").tempdir_in("/tmp") {
+        Ok(d) => d,
+        Err(e) => {
+            report.harness_error(&format!("tempdir: {e}"));
+            return report.finish();
+        }
+    };
+    let threads = 12usize;
+    let max_cases: u64 = args.tier.pick(300_000, 30_000_000);
+    let next = std::sync::atomic::AtomicU64::new(0);
+    std::thread::scope(|s| {
+        for t in 0..threads {
+            let report = &report;
+            let next = &next;
+            let dir = dir.path();
+            s.spawn(move || {
+                let (rt, flavour) = if t % 3 == 0 {
+                    (
+                        tokio::runtime::Builder::new_current_thread().enable_all().build().unwrap(),
+                        "current_thread",
+                    )
+                } else {
+                    (
+                        tokio::runtime::Builder::new_multi_thread()
+                            .worker_threads(2 + t % 2)
+                            .enable_all()
+                            .build()
+                            .unwrap(),
+                        "multi_thread",
+                    )
+                };
+                loop {
+                    let idx = next.fetch_add(1, std::sync::atomic::Ordering::SeqCst);
+                    if idx >= max_cases || !report.time_left() {
+                        break;
+                    }
+                    let r = std::panic::catch_unwind(std::panic::AssertUnwindSafe(|| {
+                        if idx % 3 == 2 {
+                            chunk_case(report, args.seed, idx, &rt, selftest);
+                        } else {
+                            spill_case(report, args.seed, idx, &rt, flavour, dir, selftest);
+                        }
+                    }));
+                    if let Err(p) = r {
+                        let msg = p
+                            .downcast_ref::<String>()
+                            .cloned()
+                            .or_else(|| p.downcast_ref::<&str>().map(|s| s.to_string()))
+                            .unwrap_or_default();
+                        report.violation(
+                            if idx % 3 == 2 { "panic-in-chunker" } else { "panic-in-spill" },
+                            &format!("panic: {msg}"),
+                            json!({"seed": args.seed as i64, "case": idx}),
+                        );
+                    }
+                }
+            });
+        }
+    });
+    drop(dir);
+    if selftest {
+        let missed = report.counter("selftest_missed");
+        let flagged = report.counter("selftest_flagged");
+        println!("SELFTEST C41 flagged={flagged} missed={missed}");
+        return if missed == 0 && flagged > 0 { 0 } else { 2 };
+    }
+    let _: Option<Value> = None;
+    report.finish()
 }
